@@ -168,8 +168,17 @@ func (p *provider) CreateScope(ctx context.Context) (Scope, error) {
 
 	// Track scope
 	p.scopesMu.Lock()
-	p.scopes[s] = struct{}{}
+	providerClosed := p.scopes == nil
+	if !providerClosed {
+		p.scopes[s] = struct{}{}
+	}
 	p.scopesMu.Unlock()
+
+	// The provider was closed while the scope was being created
+	if providerClosed {
+		_ = s.Close()
+		return nil, ErrProviderDisposed
+	}
 
 	// Auto-close on context cancellation
 	go func() {
